@@ -68,12 +68,20 @@ func c09scenario(k int, watching bool) {
 			// asserted where it is documented (no delay: no-op success); in the other case the
 			// later events decide (re-stacks must still be verified).
 			extFail := !delayInForce && (!delay || watching)
-			verifyExternalFail = extFail
+			// while the delay is in force (no watchers: the fast path) Verify may also fail for an
+			// external reason: that attempt fails, the delay stays, a later attempt re-verifies
+			extRetry := delay && delayInForce && !watching && zzverif.Choose("extfail"+strconv.Itoa(i), 2) == 1
+			verifyExternalFail = extFail || extRetry
 			cfg, ser, eerr := d.EnableVerification(ctx)
 			verifyExternalFail = false
 			if !delay {
 				zzverif.Assert(eerr == nil && cfg == cur, "C09 EnableVerification without delayed verification must return the current config")
 				zzverif.Assert(len(verifyLog) == nv, "C09 EnableVerification without delayed verification must not verify")
+				break
+			}
+			if extRetry {
+				zzverif.Assert(eerr != nil, "C09 EnableVerification succeeded although Verify failed")
+				zzverif.Assert(len(verifyLog) == nv+1, "C09 EnableVerification did not verify the installed config exactly once (a retry after a failure must verify again)")
 				break
 			}
 			if delayInForce {
